@@ -8,6 +8,20 @@ TB = ("Trusted base: Go front end + go/types, golang.org/x/tools v0.29.0 (go/pac
       "jsight-schema-core@v0.2.0 behaving as read; reference tables under tools/reference. ")
 
 CHECKS = {
+ "C01": dict(
+   engine="E1 scanner automaton + rules/c01.go, nilness.go, cgraph.go (AST, go/cfg, SSA, VTA call graph)",
+   category="other",
+   text="Absence of the crash and hang mechanisms that are visible in the code, for every input: each explicit panic, unchecked assertion, nil-able field / GetValue result dereference, value used on its error branch, promoted method over a nil embedded interface and constant index reachable from the build entry points is an obligation with a named discharge; recover handlers assign named results; the scanner automaton never underflows and every cycle consumes input; every recursive call-graph component and non-range loop has a verified termination witness; no lock re-entry under map locks; include cycles refused. Running time, and anything inside jsight-schema-core, is not claimed.",
+   design="DESIGN.md §5 C01",
+   note=TB + "Named exceptions (one symbol + reason each) are listed in the evidence. Reachability treats a function as callable once it is referenced in reachable code.",
+   technique="reachability over the VTA call graph + per-site discharge rules (dominance on go/cfg, table-backed invariants), pushdown analysis of the extracted scanner automaton, SCC termination witnesses"),
+ "C06": dict(
+   engine="rules/c06.go",
+   category="other",
+   text="For the module's own code: every range over a Go map is classified order-insensitive from its body (or is a reasoned named exception), ordered catalog maps iterate their order slice, no nondeterminism source is called, the code is sequential, and no package-level state survives a build. Determinism inside the dependency is trusted (thorough tier lists its sources as observations).",
+   design="DESIGN.md §5 C06",
+   note=TB + "An unsummarised call inside a map loop is reported, not assumed harmless, unless all its inputs derive from the element.",
+   technique="effect classification of map-range bodies; who-may-call lint for nondeterminism sources; package-state write analysis"),
  "C13": dict(
    engine="E1 scanner automaton + E2 directive tables",
    category="model_checking",
